@@ -791,6 +791,9 @@ func checkC08(r *Run) {
 		c.ruleWrapKeepsHandle(r5)
 		c.ruleFailedKeptFor(r5, "subscribe", "unsubscribe")
 		c.ruleRetryRequeue(r5, nil, "loss")
+		// … and what is kept is sent again: the reconnect loop resumes the retry queue after every successful Connect,
+		// also when the broker kept the session and nothing has to be re-subscribed (R-C01-8)
+		c.ruleReconnectResumes(r5)
 	}
 	c.ruleRetryRequeue(r4, nil, "order")
 	c.ruleTaskQueueing(nil, r4, "subscribe", "unsubscribe")
